@@ -15,6 +15,7 @@ import (
 )
 
 type qgen struct {
+	pExp  int // per-mille chance of experimental syntax (anchored/smoothed, duration expressions, fill)
 	r     *gen.Rand
 	pBad  int // per-mille chance of a type error at a typed hole
 	pPar  int // per-mille chance of wrapping a hole in parentheses
@@ -25,6 +26,7 @@ func newQGen(r *gen.Rand) *qgen {
 	g := &qgen{r: r}
 	g.pBad = gen.Pick(r, []int{0, 0, 0, 15, 40, 120})
 	g.pPar = gen.Pick(r, []int{0, 60, 150, 300})
+	g.pExp = gen.Pick(r, []int{0, 0, 0, 100, 300})
 	for n := range parser.Functions {
 		g.funcs = append(g.funcs, n)
 	}
@@ -100,7 +102,7 @@ func (g *qgen) scalar(d int) string {
 	}
 }
 
-var metrics = []string{"foo", "bar", "h", "mixed", "cb", "b_bucket", "target_info", "foo_total", "dup", "nothing"}
+var metrics = []string{"foo", "bar", "many", "h", "mixed", "cb", "b_bucket", "target_info", "foo_total", "dup", "nothing"}
 
 func (g *qgen) matchers() string {
 	var ms []string
@@ -110,10 +112,26 @@ func (g *qgen) matchers() string {
 	return strings.Join(ms, ",")
 }
 
+var durExprs = []string{"step()", "step()+1ms", "5m*2", "max_of(step(),1m)", "min_of(range(),2m)", "(1m+30s)", "1m-2m", "range()", "1m/0", "2^3", "10m%3m"}
+
+func (g *qgen) dur() string {
+	if g.pm(g.pExp) {
+		return gen.Pick(g.r, durExprs)
+	}
+	return gen.Pick(g.r, durs)
+}
+
 func (g *qgen) mods() string {
 	s := ""
+	if g.pm(g.pExp / 2) {
+		s += " " + gen.Pick(g.r, []string{"anchored", "smoothed"})
+	}
 	if g.r.Chance(1, 5) {
-		s += " offset " + gen.Pick(g.r, []string{"1m", "30s", "-1m", "10m", "0s", "1h"})
+		if g.pm(g.pExp) {
+			s += " offset " + gen.Pick(g.r, durExprs)
+		} else {
+			s += " offset " + gen.Pick(g.r, []string{"1m", "30s", "-1m", "10m", "0s", "1h"})
+		}
 	}
 	if g.r.Chance(1, 5) {
 		s += " @ " + gen.Pick(g.r, []string{"100", "300.5", "start()", "end()", "0", "1000"})
@@ -145,9 +163,12 @@ func (g *qgen) matrix(d int) string {
 		if g.r.Bool() {
 			step = gen.Pick(g.r, []string{"15s", "30s", "1m", "7s"})
 		}
-		return g.hole(parser.ValueTypeVector, d-1) + "[" + gen.Pick(g.r, durs) + ":" + step + "]" + g.mods()
+		if step != "" && g.pm(g.pExp) {
+			step = gen.Pick(g.r, durExprs)
+		}
+		return g.hole(parser.ValueTypeVector, d-1) + "[" + g.dur() + ":" + step + "]" + g.mods()
 	}
-	return g.selector() + "[" + gen.Pick(g.r, durs) + "]" + g.mods()
+	return g.selector() + "[" + g.dur() + "]" + g.mods()
 }
 
 var aggPlain = []string{"sum", "avg", "min", "max", "count", "group", "stddev", "stdvar"}
@@ -159,7 +180,7 @@ func (g *qgen) grouping() string {
 	}
 	ls := []string{}
 	for g.r.Chance(2, 3) && len(ls) < 3 {
-		ls = append(ls, gen.Pick(g.r, []string{"job", "instance", "le", "__name__", "x"}))
+		ls = append(ls, gen.Pick(g.r, []string{"job", "instance", "le", "__name__", "x", "g"}))
 	}
 	return " " + gen.Pick(g.r, []string{"by", "without"}) + " (" + strings.Join(ls, ",") + ") "
 }
@@ -171,6 +192,9 @@ func (g *qgen) vmatch(setop bool) string {
 	ls := []string{}
 	for g.r.Chance(2, 3) && len(ls) < 2 {
 		ls = append(ls, gen.Pick(g.r, []string{"job", "instance", "le"}))
+	}
+	if g.pm(g.pExp) {
+		return gen.Pick(g.r, []string{"fill(0) ", "fill_left(1) ", "fill_right(NaN) ", "on(job) fill(Inf) ", "on(job) group_left fill_right(0) "})
 	}
 	s := gen.Pick(g.r, []string{"on", "ignoring"}) + "(" + strings.Join(ls, ",") + ")"
 	if (!setop && g.r.Chance(1, 3)) || g.pm(g.pBad) {
